@@ -45,14 +45,16 @@ What is proved:
   w.r.t. the new bond charges by C11 (`sparse_Q`), including the dummy branches and bonds of dimension zero.
 * `step_wf_compress`          : `compress` keeps the invariant — **right mode unconditionally, left mode whenever the
   returned scale is non-zero** (`abs 0 = 0` is the only fact used about the absolute-value oracle).  Mechanism: if
-  the truncation rule discards the complete spectrum of a block (`tol ≥ 1`, a zero spectrum, or — for arbitrary
-  oracles — `dnorm s = 0`) the bond collapses to dimension zero.  In right mode the row charges of the next split are
+  the truncation rule discards the complete spectrum of a NON-ZERO matrix (`tol ≥ 1`, or — for oracles violating the
+  contracts — an all-zero spectrum / `dnorm s = 0`) the bond collapses to dimension zero.  (A ZERO matrix no longer
+  collapses a bond: since the repair of `split_matrix_svd` it takes the dummy branch, intermediate dimension one, also
+  when the charge lists intersect; `C12.split_zero`, `C12.split_bond_pos`.)  In right mode the row charges of the next split are
   bond charges of the QR-orthonormalized state, never empty, and the shapes stay consistent.  In left mode the next
   `split_matrix_svd` sees a matrix without rows, returns `u` of shape `(0, 1)` and `q = q0[:1] = []`, and the MPS ends
   up labelling an axis of size one with an empty charge list (observed on the real code: `MPS.compress(tol=2.0)` on a
   random two-site state returns normally with `A[1].shape = (2,0,1)`, `qD = [[0],[],[]]`); but then every later
   factor pushed to the right is `0`, so the returned scale is `0`.  `compress_collapse_example` shows that the
-  condition cannot be dropped under shape-only oracles.  `step_wf_of_scale` is the uniform statement for all
+  condition cannot be dropped under shape-only oracles (identity-like QR, all-zero SVD oracle).  `step_wf_of_scale` is the uniform statement for all
   operations.
   `step_wf_compress_partial`: the same conclusion under the alternative output condition "no bond charge list of the
   result is empty" (`NoCollapse`), both modes, without `abs 0 = 0`.
@@ -548,7 +550,8 @@ Concrete data over `ℚ` (all evaluations by kernel reduction of the executable 
 * `exPool2 = [χ]`, the two-site state `|01⟩ + |10⟩` with bonds `[0], [0,1], [1]`;
 * `exK0`: kernels returning **zero** factors of the right shapes (they satisfy `KernelShapes` and nothing else; the
   norm oracle is `≡ 0`); `exK1`: the same with norm oracle `≡ 1` and the identity permutation; `exKI`: the
-  identity-like QR kernel `B ↦ (I, B)` of `QrExample`. -/
+  identity-like QR kernel `B ↦ (I, B)` of `QrExample`; `exK0q`: that QR kernel with the zero SVD / norm oracles of
+  `exK0`. -/
 
 def isOk {ε α : Type} : Except ε α → Bool
   | .ok _ => true
@@ -635,16 +638,33 @@ example : KernelShapes exK1 ∧ poolWF exPool2 = true ∧ ∃ p' out,
     simp at this
   exact ⟨exK1_shapes, hp, p', out, hs, hnc, step_wf_compress_partial exK1_shapes hp hs hnc⟩
 
-/-- the hypothesis of `step_wf_compress_partial` cannot be dropped: under the zero-norm oracle (`exK0`, which satisfies
-the shape clauses) `compress` of the well-formed `χ` returns normally with an ill-formed state (bond dimension zero
-followed by the dummy branch of `split_matrix_svd` on a matrix without rows) -/
-theorem compress_collapse_example : KernelShapes exK0 ∧ poolWF exPool2 = true ∧ ∃ p' out,
-    step exK0 exPool2 (.compress 0 0 true) = .ok (p', out) ∧ poolWF p' = false := by
-  have h : (match step exK0 exPool2 (.compress 0 0 true) with
+/-- identity-like QR kernel; SVD oracle returning zero factors and an all-zero spectrum of the right shapes (shape
+clauses only: the product clause fails on every non-zero matrix); norm oracle `≡ 0` -/
+def exK0q : StepKernels ℚ ℚ := mkK exDqr (exSvd0 0)
+theorem exK0q_shapes : KernelShapes exK0q :=
+  ⟨fun B => exDqr_shape B, fun _ _ _ => ⟨rfl, rfl, by simp [exK0q, mkK, exSvd0], rfl, rfl⟩⟩
+
+/-- the hypothesis of `step_wf_compress_partial` cannot be dropped: under the zero SVD oracle (`exK0q`, which satisfies
+the shape clauses but not the product clause: a NON-ZERO matrix gets the spectrum `[0, …]`, nothing is kept)
+`compress` of the well-formed `χ` returns normally with an ill-formed state (bond dimension zero followed by the dummy
+branch of `split_matrix_svd` on a matrix without rows).  Since the repair of `split_matrix_svd` a ZERO matrix always
+gets the dummy bond of dimension one, so under the zero QR oracle `exK0` (which turns the state into zero before the
+SVD sweep) the result is well-formed. -/
+theorem compress_collapse_example : KernelShapes exK0q ∧ poolWF exPool2 = true ∧ ∃ p' out,
+    step exK0q exPool2 (.compress 0 0 true) = .ok (p', out) ∧ poolWF p' = false := by
+  have h : (match step exK0q exPool2 (.compress 0 0 true) with
       | .ok (p', _) => !(poolWF p') | .error _ => false) = true := by decide +kernel
+  obtain ⟨⟨p', out⟩, hs⟩ := ok_of_isOk (x := step exK0q exPool2 (.compress 0 0 true)) (by decide +kernel)
+  rw [hs] at h
+  exact ⟨exK0q_shapes, by decide +kernel, p', out, hs, by simpa using h⟩
+
+/-- the zero-state case after the repair: under the zero QR oracle `exK0` the same call returns a well-formed state -/
+example : ∃ p' out, step exK0 exPool2 (.compress 0 0 true) = .ok (p', out) ∧ poolWF p' = true := by
+  have h : (match step exK0 exPool2 (.compress 0 0 true) with
+      | .ok (p', _) => poolWF p' | .error _ => false) = true := by decide +kernel
   obtain ⟨⟨p', out⟩, hs⟩ := ok_of_isOk (x := step exK0 exPool2 (.compress 0 0 true)) (by decide +kernel)
   rw [hs] at h
-  exact ⟨exK0_shapes, by decide +kernel, p', out, hs, by simpa using h⟩
+  exact ⟨p', out, hs, h⟩
 
 /-- identity-like SVD kernel `B ↦ (I, 1, B)`, norm oracle `≡ 1`, identity permutation -/
 def exSvdI : MPS.SvdKernels ℚ ℚ :=
